@@ -707,7 +707,17 @@ fn w_c01_chunkings() {
         assert!(r.result.is_ok(), "[C01.w.big] multi-packet command failed: {:?}", r.result);
         assert!(matches!(r.log.get(1), Some(Ev::Query(q)) if q == &big), "[C01.w.big] multi-packet command did not reach the shim byte for byte");
     }
-    println!("VERIF-NATIVE w_c01_chunkings cases=11 nontrivial=11");
+    // commands whose payload is an exact multiple of 0xFFFFFF (closed by an empty packet), with nothing after them:
+    // delivered once, and the connection then ends cleanly at the command boundary
+    for k in [1usize, 2] {
+        let exact: Vec<u8> = (0..k * MAXP - 1).map(|j| b'a' + (j % 19) as u8).collect();
+        for ch in [vec![], vec![MAXP + 4, 4], vec![65521]] {
+            let r = converse(hs41(b"u", 0), &[(c_query(&exact), 0)], ch.clone(), false, None, None);
+            assert!(matches!(r.log.get(1), Some(Ev::Query(q)) if q == &exact) && r.log.len() == 2, "[C01.w.exact] a command of exactly {}*0xFFFFFF bytes (chunking {:?}) did not reach the shim exactly once", k, ch);
+            assert!(r.result.is_ok(), "[C01.w.exact] the stream ended right after a command of exactly {}*0xFFFFFF bytes, run_on returned {:?}", k, r.result);
+        }
+    }
+    println!("VERIF-NATIVE w_c01_chunkings cases=17 nontrivial=17");
 }
 
 #[test]
